@@ -177,6 +177,11 @@ def do_check(args, engine, lanes, prop, master_seed, t_start, ctx):
     search_s = time.monotonic() - t_search
     log(f"search: {len(executed)}/{len(jobs)} jobs in {search_s:.1f}s, {len(bad)} not ok")
 
+    if hasattr(engine, "health"):
+        msg = engine.health(executed)
+        if msg:
+            log("HARNESS-ERROR " + msg)
+            return 2
     # harness errors are fatal for the check's credibility
     for j, r in executed:
         if r.get("status") == "harness_error":
